@@ -27,6 +27,7 @@ type fnCfg struct {
 	File   string   // path below -repo; the function must be declared there
 	Fuel   []string // one Go expression per `for cond {}` loop, in source order: the iteration bound
 	Stores []string // whitelisted `x[i] = v` sites (source text of the left-hand side); see alias.go
+	Thread bool     // return the receiver even though the method does not mutate it (uniform handler type)
 }
 
 var config = []fnCfg{
@@ -77,6 +78,15 @@ var config = []fnCfg{
 	{Name: "capSet.Intersect", File: "client/handlers.go"},
 	{Name: "capSet.Slice", File: "client/handlers.go"},
 	{Name: "capSet.Size", File: "client/handlers.go"},
+	// v2.5: the simple built-in handlers
+	{Name: "Line.argslen", File: "client/line.go"},
+	{Name: "Conn.h_PING", File: "client/handlers.go"},
+	{Name: "Conn.h_REGISTER", File: "client/handlers.go"},
+	{Name: "Conn.h_410", File: "client/handlers.go", Thread: true},
+	{Name: "Conn.h_903", File: "client/handlers.go"},
+	{Name: "Conn.h_904", File: "client/handlers.go"},
+	{Name: "Conn.h_908", File: "client/handlers.go"},
+	{Name: "Conn.h_CTCP", File: "client/handlers.go"},
 }
 
 // pkg is what is known about the Go package: declarations only, no type checking.
@@ -163,6 +173,24 @@ func load(repo, dir string) *pkg {
 	return p
 }
 
+// loadStructs registers the struct types of another package as "pkg.Name" (declarations only).
+func (p *pkg) loadStructs(repo, dir string) {
+	names, _ := filepath.Glob(filepath.Join(repo, dir, "*.go"))
+	sort.Strings(names)
+	for _, name := range names {
+		if f, err := parser.ParseFile(p.fset, name, nil, 0); err == nil && !strings.HasSuffix(name, "_test.go") {
+			ast.Inspect(f, func(n ast.Node) bool {
+				if ts, ok := n.(*ast.TypeSpec); ok {
+					if st, ok := ts.Type.(*ast.StructType); ok {
+						p.structs[dir+"."+ts.Name.Name], p.pos[dir+"."+ts.Name.Name] = st, ts.Pos()
+					}
+				}
+				return true
+			})
+		}
+	}
+}
+
 // result of translating one function
 type outFn struct {
 	cfg    fnCfg
@@ -179,6 +207,7 @@ func main() {
 	out := flag.String("out", "lean/Goirc/Gen/Pure.lean", "output file")
 	flag.Parse()
 	p := load(*repo, "client")
+	p.loadStructs(*repo, "state") // struct types of other packages that fields refer to (state.Nick)
 
 	// signatures first (calls between listed functions need them), then `ext` propagation along
 	// the call graph, then bodies in dependency order.
@@ -219,7 +248,7 @@ func main() {
 	for changed := true; changed; {
 		changed = false
 		for _, c := range config {
-			if s := p.sigs[c.Name]; s != nil && !s.threaded && mutatesRecv(p, p.funcs[c.Name]) {
+			if s := p.sigs[c.Name]; s != nil && !s.threaded && mutatesRecv(p, p.funcs[c.Name], c.Thread) {
 				s.threaded, changed = true, true
 			}
 		}
@@ -274,7 +303,9 @@ func main() {
 	b.WriteString("Conventions beyond the plain subset (see Goirc/Go/Rt.lean, \"v2 additions\"):\n")
 	b.WriteString("* a pointer method that mutates its receiver (struct listed in the translator's struct table) takes the receiver by\n  value and returns the new one: `conn.Raw(x)` is `conn ← Conn_Raw conn x`;\n")
 	b.WriteString("* a `chan string` field listed as a queue is a `List Bytes`, oldest first; `conn.out <- v` appends at the tail; blocking\n  on a full channel and the receiving side are not modelled;\n")
-	b.WriteString("* `x.mu.Lock()/Unlock()/RLock()/RUnlock()` and `defer x.mu.Unlock()/RUnlock()` on a field declared sync.Mutex or\n  sync.RWMutex are dropped (sequential semantics), leaving a `-- dropped:` comment; so are logging.* / runtime.* calls.\n-/\n")
+	b.WriteString("* `x.mu.Lock()/Unlock()/RLock()/RUnlock()` and `defer x.mu.Unlock()/RUnlock()` on a field declared sync.Mutex or\n  sync.RWMutex are dropped (sequential semantics), leaving a `-- dropped:` comment; so are logging.* / runtime.* calls.\n")
+	b.WriteString("* the arguments of a dropped logging.* / runtime.* call that can panic are still evaluated, in order, for that effect\n  (`let _ ← Rt.idx line.Args 1`); an argument that mentions a variable of a dropped `x := runtime.…` is dropped whole;\n")
+	b.WriteString("* pointer-typed fields (`conn.cfg`, `cfg.Me`) are rendered as the structure itself: a nil `cfg` / `cfg.Me` is not modelled.\n-/\n")
 	b.WriteString("import Goirc.Go.Rt\nset_option linter.unusedVariables false\nopen Go\nnamespace Gen\n\n")
 	var decls []string
 	for u := range used {
@@ -383,9 +414,12 @@ func ambiguous(name string) bool {
 
 // mutatesRecv: does this pointer method of a struct listed in structTable mutate its receiver r:
 // `r.f <- v`, `r.f = v`, `r.f[k] = v`, r.f++, or `r.M(…)` with M already known to?
-func mutatesRecv(p *pkg, fd *ast.FuncDecl) (yes bool) {
+func mutatesRecv(p *pkg, fd *ast.FuncDecl, force bool) (yes bool) {
 	if fd.Recv == nil || len(fd.Recv.List[0].Names) != 1 || !strings.HasPrefix(typeStr(fd.Recv.List[0].Type), "*") || structRow(typeStr(fd.Recv.List[0].Type)) == nil {
 		return false
+	}
+	if force { // config: Thread
+		return true
 	}
 	r, t := fd.Recv.List[0].Names[0].Name, strings.TrimPrefix(typeStr(fd.Recv.List[0].Type), "*")
 	rooted := func(e ast.Expr) bool { // r.f, r.f[k], r.f.g …
